@@ -132,24 +132,11 @@ fn c04_constructors_componentwise() {
 }
 
 // ---------- lemmas (on the real functions) ----------
-#[kani::proof]
-#[kani::solver(z3)]
-fn c04_lemma_cost_additive() {
-    let (a, b) = (any_cost(), any_cost());
-    kani::assume(comb_pre(&a, &b, 1) && cost_pre(&a) && cost_pre(&b) && cost_pre(&ConstCost {
-        steps: a.steps + b.steps, holes: a.holes + b.holes, range_checks: a.range_checks + b.range_checks, range_checks96: a.range_checks96 + b.range_checks96 }));
-    kani::cover!(true, "reach:additive");
-    assert!(a.add(b).cost() as i128 == a.cost() as i128 + b.cost() as i128, "C04 cost(a.add(b)) == cost(a) + cost(b)");
-}
-#[kani::proof]
-#[kani::solver(cvc5)]
-fn c04_lemma_cost_subtractive() {
-    let (a, b) = (any_cost(), any_cost());
-    kani::assume(comb_pre(&a, &b, -1) && cost_pre(&a) && cost_pre(&b) && cost_pre(&ConstCost {
-        steps: a.steps - b.steps, holes: a.holes - b.holes, range_checks: a.range_checks - b.range_checks, range_checks96: a.range_checks96 - b.range_checks96 }));
-    kani::cover!(true, "reach:subtractive");
-    assert!((a - b).cost() as i128 == a.cost() as i128 - b.cost() as i128, "C04 cost(a - b) == cost(a) - cost(b)");
-}
+// cost(a.add(b)) == cost(a) + cost(b) is NOT a Kani harness: equivalence of two 32-bit multiplier circuits
+// (100*(x+y) vs 100*x + 100*y) is out of reach of SAT (measured: no result in 15 min with cadical, 6 min with
+// z3 / cvc5, 5 min with components bounded by 2^12). It follows from `c04_cost_is_published_price`
+// (cost == spec_cost) and the linearity of spec_cost over the integers, which is the Verus lemma
+// `lemma_cost_linear` (contracts/verus/gas_lemmas.vrs).
 #[kani::proof]
 fn c04_lemma_cost_of_unit_vectors() {
     let n: i32 = kani::any();
